@@ -69,6 +69,8 @@ def compute_domains_affine_geq(domains: NDArray, parameters: NDArray) -> int:
             domain_sum_max -= c * domains[i, MAX]
     if domain_sum_max <= 0:
         return PROP_ENTAILMENT
+    if domain_sum_min > 0:  # no variable with a non null coefficient could detect it
+        return PROP_INCONSISTENCY
     old_domains = np.copy(domains)
     for i, c in enumerate(parameters[:-1]):
         if c != 0:
